@@ -1,8 +1,9 @@
-(* C10 — Escaping removes every marker from arbitrary bytes and nothing else.
-   (First part: EscapeMarkers; the EscapeBytes / scanner part is added with
-   EscapeP.v / RenderP.v.) *)
-From Redact Require Import Bytes Tokens Markers TokensP MarkersP.
+(* C10 — Escaping removes every marker from arbitrary bytes and nothing else. *)
+From Redact Require Import Bytes Tokens Utf8 Markers Escape EscSpec Buffer Ops BufInv BufContent.
+From Redact Require Import TokensP MarkersP EscapeP Utf8P BufInvP BufContentP EscBytesP.
+Import List ListNotations.
 
+(* EscapeMarkers *)
 Theorem C10_markers_spec : forall b, escape_markers_b b = unlex (map esc_tok (lex b)).
 Proof. reflexivity. Qed.
 Print Assumptions C10_markers_spec.
@@ -20,3 +21,54 @@ Theorem C10_markers_identity_without_markers : forall b,
   no_marker (lex b) = true -> escape_markers_b b = b.
 Proof. exact escape_markers_id. Qed.
 Print Assumptions C10_markers_identity_without_markers.
+
+(* The scanner of internal/escape (literal model of the loop: indices, look-ahead, copy on
+   write) computes the list-level specification, for every prefix offset and both
+   line-splitting settings. *)
+Theorem C10_scanner_is_its_specification : forall bnl v p,
+  escape (v ++ p) (length v) bnl false = esc_spec bnl v p.
+Proof. exact escape_spec. Qed.
+Print Assumptions C10_scanner_is_its_specification.
+
+(* EscapeBytes: well-formed, line-safe; stripped = the escaped payload (+ one '?' exactly when
+   the scanner finds a dangling tail); redacted = redacted markers and the line feeds of b. *)
+Theorem C10_escape_bytes_redactable : forall b,
+  Redactable (escape_bytes b) /\ linesafe (lex (escape_bytes b)) = true.
+Proof. exact escape_bytes_redactable. Qed.
+Print Assumptions C10_escape_bytes_redactable.
+
+Theorem C10_escape_bytes_content : forall b,
+  strip_tok (lex (escape_bytes b)) =
+    escm_tok (lex b) ++ (if last_invalid (startB ++ b) then [TB 63%N] else []) /\
+  del_env (lex (escape_bytes b)) = lf_toks (lex b).
+Proof. exact escape_bytes_content. Qed.
+Print Assumptions C10_escape_bytes_content.
+
+Theorem C10_escape_bytes_redacted : forall b,
+  del_env (lex (redact_b (escape_bytes b))) = lf_toks (lex b) /\
+  forallb (fun t => match t with TB x => orb (N.eqb x 195) (N.eqb x 151) | _ => false end)
+          (env_content_aux false (lex (redact_b (escape_bytes b)))) = true.
+Proof. exact escape_bytes_redacted. Qed.
+Print Assumptions C10_escape_bytes_redacted.
+
+(* the '?' clause: required after a truncated sequence that could start a marker, absent
+   after valid UTF-8 *)
+Theorem C10_dangling_mark : forall v p : bytes,
+  (pstb 0 (v ++ p) <> 0%N -> last_invalid (v ++ p) = true) /\
+  (valid_utf8 p = true -> p <> [] -> last_invalid (v ++ p) = false).
+Proof.
+  intros v p. split; [apply partial_tail_invalid | apply valid_suffix_last_valid].
+Qed.
+Print Assumptions C10_dangling_mark.
+
+(* insensitive to how a payload is split over successive writes in the same mode *)
+Theorem C10_split_insensitive : forall b p1 p2, write (write b p1) p2 = write b (p1 ++ p2).
+Proof. exact write_split. Qed.
+Print Assumptions C10_split_insensitive.
+
+Example C10_nonvacuous :
+  let b := [97; 226;128;185; 10; 10; 226;128;186; 98; 226; 128]%N in
+  escape_markers_b b = [97; 63; 10; 10; 63; 98; 226; 128]%N /\
+  strip_b (escape_bytes b) = [97; 63; 10; 10; 63; 98; 226; 128; 63]%N /\
+  redact_b (escape_bytes b) = [226;128;185;195;151;226;128;186; 10; 10; 226;128;185;195;151;226;128;186]%N.
+Proof. vm_compute. repeat split. Qed.
